@@ -487,11 +487,14 @@ func c16Delimiters(c *core.Ctx, r *core.Report) {
 		ok := len(stores) > 0
 		for _, st := range stores {
 			good := false
-			for _, o := range core.Origins(st.Store.Val, nil) {
+			for _, o := range originsThroughParams(c, st.Store.Val, 0) {
 				if call, isCall := o.(*ssa.Call); isCall {
 					if cal := call.Common().StaticCallee(); cal != nil && ctors[cal] == want {
 						good = true
 					}
+				} else {
+					good = false // something else than a constructor's result reaches the field
+					break
 				}
 			}
 			if !good {
@@ -678,4 +681,37 @@ func replaceAllTable(c *core.Ctx, r *core.Report, rule string) {
 		}
 		r.Check(bad == "", rule, cons, c.FnPos(impl), fmt.Sprintf("every expression of a text is resolved completely - repeated, adjacent, nested innermost-first and those a replacement introduces; callback errors and endless substitution end in an error (%d abstract runs over %d texts) %s", runs, len(h.cases), bad))
 	}
+}
+
+// originsThroughParams: the origins of v; where one is a parameter of an unexported function that is only ever called
+// directly, the origins of what every call site passes for it (two levels).
+func originsThroughParams(c *core.Ctx, v ssa.Value, depth int) []ssa.Value {
+	var out []ssa.Value
+	for _, o := range core.Origins(v, nil) {
+		p, isP := o.(*ssa.Parameter)
+		if !isP || depth >= 2 {
+			out = append(out, o)
+			continue
+		}
+		fn := p.Parent()
+		idx := -1
+		for i, q := range fn.Params {
+			if q == p {
+				idx = i
+			}
+		}
+		sites := c.CallSites(func(com *ssa.CallCommon) bool { return core.IsCallTo(com, fn) })
+		if fn.Object() == nil || fn.Object().Exported() || len(c.FuncValueUses(fn)) != 0 || len(sites) == 0 || idx < 0 {
+			out = append(out, o)
+			continue
+		}
+		for _, cs := range sites {
+			if idx < len(cs.Common().Args) {
+				out = append(out, originsThroughParams(c, cs.Common().Args[idx], depth+1)...)
+			} else {
+				out = append(out, o)
+			}
+		}
+	}
+	return out
 }
